@@ -54,7 +54,11 @@ _VIOL = re.compile(r"Invariant (\S+) is violated|Temporal properties were violat
 
 
 def _java_cmd(module, cfg, workers, extra, heap):
-    return ["java", "-XX:+UseParallelGC", f"-Xmx{heap}", "-cp", JAR, "tlc2.TLC",
+    # many single-worker JVMs run side by side during trace validation: a parallel collector with
+    # 16 GC threads each makes them thrash, so small runs use the serial collector
+    gc = "-XX:+UseSerialGC" if str(workers) == "1" else "-XX:+UseParallelGC"
+    return ["java", gc, "-XX:TieredStopAtLevel=1" if str(workers) == "1" else "-XX:+TieredCompilation",
+            f"-Xmx{heap}", "-cp", JAR, "tlc2.TLC",
             "-config", cfg, "-workers", str(workers), "-noGenerateSpecTE", *extra, module]
 
 
@@ -244,6 +248,8 @@ def validate_traces(module: str, traces: list, cfg: str | None = None, jobs: int
     """traces: list of {"ev": [event, ...], ...}.  Returns a Validation with the rejected traces."""
     t0 = time.time()
     n = len(traces)
+    # measured: 4..8 concurrent single-worker TLC JVMs are fastest on 16 cores (16 thrash)
+    jobs = max(1, min(jobs, 6))
     if n == 0:
         return Validation(0, 0, 0, [], 0.0)
     if batch is None:
